@@ -75,6 +75,39 @@ theorem fact_add_two_phases :
     not fail because the caller's context — the reason for the rollback — is cancelled (the model's rollback = old state) -/
 theorem fact_rollback_reloads : "s.loadState(context.Background())" ∈ Facts.C06.addRollbackStmts := by decide
 
+/-- wiring (Network.Configure): the state gets the prevs verifier, then the signature verifier, whose key resolver looks
+    documents up in the node's DID store as of the source transaction -/
+theorem fact_state_wiring : Facts.C06.stateWiring =
+    ["nutsKeyResolver := dag.SourceTXKeyResolver{Resolver: n.didStore}",
+     "dag.NewState(dagStore, dag.NewPrevTransactionsVerifier(), dag.NewTransactionSignatureVerifier(nutsKeyResolver))"] := by decide
+
+/-- `handleTransactionList` (model: `handleList`): every transaction of the message is parsed first and one failure refuses
+    the message; a public transaction needs its payload; `Add` gets the payload of the SAME index; a missing prev ends the list -/
+theorem fact_list_handler :
+    Facts.C06.listHandlerCalls = ["subEnvelope.parseTransactions(data)", "p.state.Add(ctx, tx, msg.Transactions[i].Payload)"] ∧
+    "len(tx.PAL()) == 0" ∈ Facts.C06.listHandlerConds ∧ "len(msg.Transactions[i].Payload) == 0" ∈ Facts.C06.listHandlerConds ∧
+    "errors.Is(err, dag.ErrPreviousTransactionMissing)" ∈ Facts.C06.listHandlerConds ∧
+    Facts.C06.parseTransactionsCalls = ["dag.ParseTransaction(transaction.Data)", "on-error:return"] := by decide
+
+/-- `handleTransactionPayload` (model: `latePayload`): the transaction must be on the DAG and the bytes must hash to its
+    declared payload hash before `WritePayload` (which does not check anything itself) -/
+theorem fact_payload_handler :
+    Facts.C06.payloadHandlerCalls = ["p.state.GetTransaction(ctx, ref)", "hash.SHA256Sum(msg.Data)",
+                                     "p.state.WritePayload(ctx, tx, payloadHash, msg.Data)"] ∧
+    "!tx.PayloadHash().Equals(payloadHash)" ∈ Facts.C06.payloadHandlerConds ∧
+    "errors.Is(err, dag.ErrTransactionNotFound)" ∈ Facts.C06.payloadHandlerConds := by decide
+
+/-- `CreateTransaction` (model: `additionalOK`, `createPrevsClock`, `dedup`): additional prevs need their payload; prevs = head
+    then the additional prevs; clock = 1 + the highest prev clock; `NewTransaction` de-duplicates; the result goes through `Add` -/
+theorem fact_create_transaction :
+    Facts.C06.createTxCalls = ["n.isPayloadPresent(ctx, prev)", "n.state.Head(ctx)", "append(prevs, head)",
+      "append(prevs, template.AdditionalPrevs)", "n.calculateLamportClock(ctx, prevs)",
+      "dag.NewTransaction(payloadHash, template.Type, prevs, pal, lamportClock)",
+      "dag.NewTransactionSigner(n.keyStore, template.KID, template.PublicKey)", "n.state.Add(ctx, transaction, template.Payload)"] ∧
+    Facts.C06.calcClockConds = ["len(prevs) == 0", "err != nil", "tx.Clock() > clock", "return 0", "return 0", "return clock + 1"] ∧
+    "dd.Equals(prev)" ∈ Facts.C06.newTransactionConds ∧ "!found" ∈ Facts.C06.newTransactionConds ∧
+    "!head.Equals(hash.EmptyHash())" ∈ Facts.C06.createTxConds ∧ "!isPresent" ∈ Facts.C06.createTxConds := by decide
+
 /-- `addSingle` refuses a second transaction without prevs once clock 0 is occupied; `dag.add` moves the head on a
     higher clock or on clock 0 -/
 theorem fact_root_check :
@@ -285,6 +318,63 @@ theorem cancelled_add_no_trace (env : Env) (subs : List Sub) (s : St) (tx : Tx) 
     · simp only [hp, Bool.false_eq_true, if_false]
       split <;> (intro h; cases h)
 
+/-- **The other doors.** A TransactionList (transport/v2 `handleTransactionList`) only ever changes the state through `Add`,
+    so whatever it leaves behind is a valid DAG again; and a payload that arrives later (`handleTransactionPayload` →
+    `WritePayload`) is stored only for a transaction that is on the DAG and only if it hashes to that transaction's
+    declared payload hash — the payload store keeps "content hashes to its key". -/
+theorem other_doors_keep_invariant (env : Env) (subs : List Sub) (s : St) (hi : Inv env s) :
+    (∀ items, Inv env (handleList env subs s items).1) ∧
+    (∀ ref p, Inv env (latePayload env subs s ref p).1 ∧
+      ((latePayload env subs s ref p).2 = "ok" → ∃ tx ∈ s.txs, tx.ref = ref ∧ env.sha p = tx.payloadHash)) := by
+  refine ⟨?_, ?_⟩
+  · intro items
+    induction items generalizing s with
+    | nil => exact hi
+    | cons it rest ih =>
+      unfold handleList
+      split
+      · exact hi
+      · split
+        · rename_i s' _ h; exact ih s' (by have := @inv_add env subs s it.tx it.payload hi; rw [h] at this; exact this)
+        · rename_i s' e h
+          have : Inv env s' := by have := @inv_add env subs s it.tx it.payload hi; rw [h] at this; exact this
+          split <;> exact this
+        · rename_i s' e h
+          have := @inv_add env subs s it.tx it.payload hi; rw [h] at this; exact this
+  · intro ref p
+    unfold latePayload
+    split
+    · exact ⟨hi, by intro h; simp at h⟩
+    · rename_i tx hf
+      have hm := findTx_some_ref (show findTx s.txs ref = some tx from hf)
+      have hr : tx.ref ∈ refsOf s.txs := List.mem_map.mpr ⟨tx, hm.2, rfl⟩
+      split
+      · exact ⟨hi, by intro h; simp at h⟩
+      · rename_i hsha
+        have hsha' : env.sha p = tx.payloadHash := by simpa using hsha
+        refine ⟨?_, fun _ => ⟨tx, hm.2, hm.1, hsha'⟩⟩
+        have hn := @notify_spec .payload tx subs (saveEvent subs .payload tx s.jobs, s.ledger)
+        refine { chain := hi.chain, count := hi.count, lcHigh := hi.lcHigh, lcAtomic := hi.lcAtomic, head := hi.head, xor := hi.xor,
+                 payloads := ?_, jobsRefs := ?_, ledgerRefs := ?_ }
+        · intro q hq
+          simp only [putPayload] at hq
+          cases hq with
+          | head => exact hsha'
+          | tail _ hq => exact hi.payloads q (List.mem_filter.mp hq).1
+        · intro j hj
+          rcases hn.1 j hj with h | h
+          · rcases saveEvent_mem h with h | h
+            · exact hi.jobsRefs j h
+            · rw [h]; exact hr
+          · rw [h]; exact hr
+        · intro e he
+          obtain ⟨addl, hadd, hall⟩ := hn.2
+          simp only at hadd he
+          rw [hadd] at he
+          rcases List.mem_append.mp he with h | h
+          · exact hi.ledgerRefs e h
+          · rw [hall e h]; exact hr
+
 /-! ### every reachable state is a valid DAG -/
 
 structure Offer where
@@ -451,6 +541,10 @@ example : add env subs s2 (mk 15 1 [99] 105 true "") none = (s2, .err "prev-miss
 example : add env subs s2 sibling (some 2) = (s2, .err "payload-hash") := by decide
 /-- `cancelled_add_no_trace`: an admissible sibling whose Add is cancelled in the write transaction -/
 example : addCancelled env subs s2 sibling (some 3) = (s2, .err "cancelled") := by decide
+/-- `other_doors_keep_invariant`: a list whose second item misses its prev, and a late payload with wrong / right bytes -/
+example : (handleList env subs s1 [⟨sibling, some 3⟩, ⟨mk 20 5 [99] 120 true "", some 20⟩, ⟨child, some 2⟩]).2 = "ok:missing-prevs" := by decide
+example : (latePayload env subs s2 12 9).2 = "err:payload-mismatch" ∧ (latePayload env subs s2 12 2).2 = "ok" ∧
+    (latePayload env subs s2 77 2).2 = "err:unknown-tx" := by decide
 /-- a kid that resolves for no prev is refused -/
 example : add env subs s2 (mk 16 2 [12] 105 false "did:nuts:a#k1") none = (s2, .err "did-not-found") := by decide
 
